@@ -151,6 +151,9 @@ func runC12(r *Run) {
 	if r.unknownViolations() == 0 {
 		concurrentExpiredReads(r, "[C12]")
 	}
+	if r.unknownViolations() == 0 {
+		concurrentSweep(r, "[C12]")
+	}
 	r.Finish("every Redis store method with every single (and random multiple) command-level fault, applied or not, from five prior states x four timeout pairs: result, command trace and raw server state compared with the command-level model; store histories: every operation sequence up to the stated length over {settok x2, gettok, setauth, getauth, clear, remove} x 2 ids + tick (exhaustive, memory and Redis/miniredis, Redis operations routed to two store instances), plus random histories of 5-60 operations over 3 ids with ticks around the limits, timeouts on and off, and values outside the input guard; " +
 		"each line is executed on the real store and on the Lean store model, and judged by the Go reference map; non-trivial = at least one read returned data, distinct by the whole history")
 }
